@@ -179,6 +179,16 @@ def discharge(F, site):
             facts = facts_at(fn, b)
             if implies_lt(facts, c[2], c[3]):
                 return 'D1', 'index < len established by a dominating guard'
+            # TABLE[kind as usize]: the index is the discriminant of a field-less enum, the table (an array of constant length) has
+            # an entry for the largest one
+            ix, ln = c[2], strip(c[3])
+            while isinstance(ix, tuple) and ix and ix[0] == 'cast':
+                ix = ix[1]
+            if ln[0] == 'int' and isinstance(ix, tuple) and ix and ix[0] == 'discr' and len(ix) > 2:
+                vs = F.enum_variants(ix[2]) if ix[2] in F.adts else []
+                ds = [d for _, d in vs]
+                if ds and all(isinstance(d, int) and 0 <= d < ln[1] for d in ds):
+                    return 'D2', 'the index is a discriminant of %s (at most %d), the array has %d elements' % (ix[2], max(ds), ln[1])
             # len fact may be phrased on PtrMetadata/len of the same slice
             return None
         if kind in ('DivisionByZero', 'RemainderByZero'):
@@ -714,7 +724,7 @@ def assertion_infeasible(F, site):
     fn = site['f']
     b = site['block']
     if not (site['kind'] == 'call' and site['what'].startswith('core::panicking::') and macro_of(site['span']) in
-            ('assert', 'debug_assert', 'assert_eq', 'debug_assert_eq', 'assert_ne', 'debug_assert_ne')):
+            ('assert', 'debug_assert', 'assert_eq', 'debug_assert_eq', 'assert_ne', 'debug_assert_ne', 'unreachable', 'panic')):
         return None
     ps = _path_data(F, fn, b)
     if ps is None:
@@ -729,6 +739,8 @@ def assertion_infeasible(F, site):
                 return None
     if not reached:
         return None
+    if macro_of(site['span']) in ('unreachable', 'panic'):
+        return 'D1p', 'the arm that panics contradicts a tag test taken earlier on each of the %d paths reaching it' % reached
     return 'D1p', 'the failing branch of the assertion contradicts a tag test taken earlier on each of the %d paths reaching it' % reached
 
 
